@@ -20,7 +20,9 @@ CHANNELS = ["Channel<Msg>", "tauri::ipc::Channel<Msg>", "Channel<String>", "Chan
             "tauri::ipc::Channel", "tauri::ipc::Channel<>", "tauri::Channel<Msg>", "::tauri::ipc::Channel<Msg>"]
 NAMES = ["id", "user_id", "first_name_2", "a", "x1", "y_1", "get_2fa", "_lead", "__dunder", "a__b", "x___y", "trailing_", "http_status_code",
          "a1_b2_c3", "on_event", "on_progress", "_", "z_9_z", "very_long_parameter_name_with_many_words", "r#type", "r#match", "is_ok", "i", "n2",
-         "größe_max", "naïve", "user_名前"]     # (serde_derive itself panics on a non-ASCII FIRST letter under rename_all)
+         "größe_max", "naïve", "user_名前",
+         # words that are reserved in JavaScript or bound by commands.ts itself: as argument KEYS they are just names
+         "types", "default", "new", "delete", "arguments", "class", "with", "invoke", "package", "public", "function", "this_", "await_value"]     # (serde_derive itself panics on a non-ASCII FIRST letter under rename_all)
 VALUE_TYPES = [("i32", False), ("String", False), ("Option<i32>", True), ("Option<String>", True), ("Vec<u8>", False), ("Msg", False),
                ("Option<Msg>", True), ("bool", False), ("Option<Vec<Option<i32>>>", True), ("&str", False),
                # project types that merely share a name with a framework type the statement lists only in its qualified form
